@@ -400,9 +400,45 @@ struct Engine
             stem = base.substr(0, dot);
             suffix = base.substr(dot + 1);
         }
-        sim::clock_set(epoch_for(P.start_ms_of_day), 1000 * sim::SEC);
+        {
+            // POSIX TZ strings have the sign reversed: 9 h east of UTC is "XXX-9"
+            int m = P.tz_min;
+            char tz[32];
+            snprintf(tz, sizeof tz, "XXX%s%d:%02d", m > 0 ? "-" : (m < 0 ? "+" : ""), abs(m) / 60, abs(m) % 60);
+            setenv("TZ", m == 0 ? "UTC" : tz, 1);
+            tzset();
+        }
+        // the run starts at the given local time of day on (local) 2026-01-01
+        sim::clock_set(epoch_for(P.start_ms_of_day) - (int64_t)P.tz_min * 60 * sim::SEC, 1000 * sim::SEC);
         sim::clock_tick_always(true);
         sim_start = sim::mono_now();
+        if (P.pre_bytes > 0) {
+            // content that was in the log file before this sink ever ran: binary-looking, incompressible
+            // bytes ending in a newline - one "record" as far as the framing goes
+            std::string blob;
+            uint64_t x = 0x2545F4914F6CDD1Dull ^ (uint64_t)P.pre_bytes;
+            while ((int)blob.size() + 1 < P.pre_bytes) {
+                x ^= x << 13;
+                x ^= x >> 7;
+                x ^= x << 17;
+                blob += (char)(x >> 24);
+            }
+            Rec r;
+            r.id = (int)recs.size();
+            r.bytes = blob;
+            r.op = -2;
+            int64_t mt = sim::wall_now() - 3600 * sim::SEC - (int64_t)P.pre_age_days * sim::DAY;
+            r.day = local_day(mt);
+            recs.push_back(r);
+            pending.push_back(r.id);
+            FILE *f = fopen(active_abs.c_str(), "wb");
+            if (f) {
+                fwrite(blob.data(), 1, blob.size(), f);
+                fputc('\n', f);
+                fclose(f);
+                sim::fs_stamp(active_abs.c_str(), mt);
+            }
+        }
         if (P.obstacle > 0) {
             // a directory that occupies the name of a future rotated file: the rename to it fails as a whole
             std::string n = stem + ".2026-01-01." + std::to_string(P.obstacle) + (suffix.empty() ? "" : "." + suffix);
@@ -832,7 +868,7 @@ struct Engine
         // 3. active file
         std::string expA = rec_stream(pending);
         std::string A = act ? act->raw : std::string();
-        if (is("C05") || fault_mode) {
+        if (is("C05") || is("C06") || fault_mode) {
             if (flushed) {
                 if (A != expA)
                     fail("active-content-mismatch", describe_mismatch("active file", A, expA));
@@ -877,16 +913,16 @@ struct Engine
         if (getenv("FSIM_TRACE")) {
             fprintf(stdout, "# op %d %s wall=%lld.%03lld day=%lld pending=%zu |", cur_op, kind.c_str(),
                     (long long)(sim::wall_now() / sim::SEC), (long long)((sim::wall_now() / sim::MS) % 1000),
-                    (long long)((sim::wall_now() / sim::SEC) / 86400), pending.size());
+                    (long long)today(), pending.size());
             for (auto &f : snap)
                 fprintf(stdout, " %s(%zu,mt=%lld.%03lld)", f.name.c_str(), f.raw.size(), (long long)(f.mtime / sim::SEC),
                         (long long)((f.mtime / sim::MS) % 1000));
             fprintf(stdout, "\n");
         }
         if (written_this_op > 0) {
-            int64_t today = (sim::wall_now() / sim::SEC) / 86400;
+            int64_t tday = today();
             for (int id : pending)
-                if (recs[id].day < today && !active_tainted) {
+                if (recs[id].day < tday && !active_tainted) {
                     active_tainted = true;
                     late_flush_taints++;
                 }
@@ -898,6 +934,10 @@ struct Engine
         cur_X.clear();
         boundary_in_op = 0;
     }
+
+    // calendar day in the run's local time zone
+    int64_t local_day(int64_t wall_ns) const { return ((wall_ns / sim::SEC) + (int64_t)P.tz_min * 60) / 86400 - ((((wall_ns / sim::SEC) + (int64_t)P.tz_min * 60) % 86400 < 0) ? 1 : 0); }
+    int64_t today() const { return local_day(sim::wall_now()); }
 
     static std::string date_string(int64_t day)
     {
@@ -941,9 +981,13 @@ struct Engine
         r.id = (int)recs.size();
         r.bytes = make_record(r.id, op.n, op.cls);
         r.op = cur_op;
-        QMessageLogContext ctx("f.cpp", 1, "void f()", "default");
-        LogMessage lmsg(QtDebugMsg, ctx, QString::fromUtf8(r.bytes.data(), (int)r.bytes.size()));
-        r.day = (sim::wall_now() / sim::SEC) / 86400;
+        QMessageLogContext ctx("f.cpp", 1, "void f()", op.cat ? "app.core" : "default");
+        QString text = QString::fromUtf8(r.bytes.data(), (int)r.bytes.size());
+        bool fmt = op.fmt && !text.isEmpty(); // (an empty formatted text and "not formatted" are told apart by null-ness only)
+        LogMessage lmsg(QtDebugMsg, ctx, fmt ? QStringLiteral("raw text of another length") : text);
+        if (fmt)
+            lmsg.setFormattedMessage(text);
+        r.day = today();
         recs.push_back(r);
         pending.push_back(r.id);
         if (sink)
@@ -952,7 +996,7 @@ struct Engine
             // the device is closed: the record was refused, it never reached the file.  After an
             // injected failure that is a legitimate outcome (the file could not be reopened); in a
             // fault-free history nothing entitles the sink to drop a record
-            if (!fault_mode && (is("C05") || is("C07") || is("C09")))
+            if (!fault_mode && (is("C05") || is("C06") || is("C07") || is("C09")))
                 fail("record-refused", "record r" + std::to_string(r.id) + " was dropped: the sink's file is closed although no failure was injected");
             pending.pop_back();
             refused++;
@@ -962,7 +1006,7 @@ struct Engine
     void do_advance(const FOp &op)
     {
         if (op.to) {
-            int64_t w = sim::wall_now();
+            int64_t w = sim::wall_now() + (int64_t)P.tz_min * 60 * sim::SEC; // local wall clock
             int64_t into = w % sim::DAY;
             int64_t target = sim::DAY - 1 * sim::MS; // 23:59:59.999
             if (into < target)
